@@ -297,7 +297,10 @@ def keysound(S, dim):
 def _classes(S, nsamples, with_classes):
     if not with_classes:
         return None
-    return np.array([1.0 if S.flag('cls%d' % m) else -1.0 for m in range(nsamples)])
+    # class weights as DataSet.split_one_vs_others produces them: 1 for the class itself, a negative weight in [-1, 0) for the others
+    # (-1 balanced, -1/4 stands for an unbalanced one-vs-others split); concrete values chosen by the solver keep the obligations linear
+    W = (1.0, -1.0, -0.25)
+    return np.array([W[S.choice('cls%d' % m, len(W))] for m in range(nsamples)])
 
 
 def bsize_dw(S, npts, nsamples, with_classes):
@@ -323,6 +326,25 @@ def bsize_uniform(S, levelvec, nsamples, with_classes):
     with threshold(LARGE, ['calculate_B']):
         b_large = _uni_op(S, dim, levelvec, classes=classes, data=data).calculate_B(data, list(levelvec))
     _same(S, b_large, b_small, 'bsize:large-grid-right-hand-side-equals-small-grid-right-hand-side-(uniform)')
+
+
+def bsize_uniform_two(S, lv1, lv2, nsamples, with_classes):
+    """ONE operation object evaluates the large-grid right-hand side of two different component grids one after the other (as the
+    combination technique does); each must equal the small-grid right-hand side of a fresh object."""
+    dim = len(lv1)
+    xs = _samples(S, nsamples, dim)
+    data = np.array(xs, dtype=object if S.lifted else float)
+    classes = _classes(S, nsamples, with_classes)
+    with threshold(LARGE, ['calculate_B']):
+        op = _uni_op(S, dim, lv1, classes=classes, data=data)
+        got = []
+        for lv in (lv1, lv2, lv1):
+            op.grid.numPoints = 2 ** np.asarray(lv, dtype=int) - 1
+            got.append(op.calculate_B(data, list(lv)))
+    with threshold(SMALL, ['calculate_B']):
+        want = [_uni_op(S, dim, lv, classes=classes, data=data).calculate_B(data, list(lv)) for lv in (lv1, lv2, lv1)]
+    for n, (g, w) in enumerate(zip(got, want)):
+        _same(S, g, w, 'bsize:large-grid-right-hand-side-of-grid-%d-on-a-reused-object-equals-small-grid-right-hand-side' % (n + 1))
 
 
 # ------------------------------------------------------------------ Br
@@ -478,6 +500,10 @@ def jobs(tier):
         for wc in (False, True):
             js.append(Job('bsize-uniform[l=%s,samples=%d,%s]' % ('x'.join(map(str, lv)), ns, 'classes' if wc else 'plain'), bsize_uniform,
                           {'levelvec': list(lv), 'nsamples': ns, 'with_classes': wc}, **kw))
+    for lv1, lv2, ns in ([((2,), (3,), 1), ((2, 1), (1, 2), 1), ((2, 2), (2, 1), 1)] if q else [((2,), (3,), 2), ((2, 1), (1, 2), 2), ((2, 2), (2, 1), 1), ((3, 2), (2, 3), 1), ((2, 2, 1), (1, 2, 2), 1)]):
+        for wc in (False, True):
+            js.append(Job('bsize-uniform-two[l=%s+%s,samples=%d,%s]' % ('x'.join(map(str, lv1)), 'x'.join(map(str, lv2)), ns, 'classes' if wc else 'plain'), bsize_uniform_two,
+                          {'lv1': list(lv1), 'lv2': list(lv2), 'nsamples': ns, 'with_classes': wc}, **kw))
     for npts, ns in ([((2,), 1), ((3,), 1), ((3,), 2), ((2, 1), 1), ((2, 2), 1)] if q else [((2,), 1), ((3,), 2), ((4,), 2), ((5,), 1), ((2, 1), 2), ((2, 2), 1), ((3, 2), 1), ((2, 2), 2)]):
         for wc in (False, True):
             js.append(Job('breuse[n=%s,samples=%d,%s]' % ('x'.join(map(str, npts)), ns, 'classes' if wc else 'plain'), breuse,
